@@ -689,3 +689,170 @@ Section KnownAll.
       exists pos', prev', known', maxnum'. cbn [final_known]. split; [exact E1|exact E2].
   Qed.
 End KnownAll.
+
+(* ======================================================================================================
+   Part D: the parts of ref_write_multi define disjoint sets (the hypothesis of part C), once a part's mp_nums names
+   top-level objects only
+   ====================================================================================================== *)
+Lemma NoDup_app_intro {A} : forall (l1 l2 : list A), NoDup l1 -> NoDup l2 -> (forall x, In x l1 -> In x l2 -> False) -> NoDup (l1 ++ l2).
+Proof.
+  induction l1 as [|y l1 IH]; intros l2 H1 H2 Hd; [exact H2|]. cbn [app]. inversion H1 as [|? ? Hn Hd1]; subst. constructor.
+  - intro K. apply in_app_or in K as [K|K]; [exact (Hn K)|exact (Hd y (or_introl eq_refl) K)].
+  - apply IH; [exact Hd1|exact H2|intros x Hx; apply Hd; right; exact Hx].
+Qed.
+Lemma NoDup_app_l' {A} : forall (l1 l2 : list A), NoDup (l1 ++ l2) -> NoDup l1.
+Proof.
+  induction l1 as [|x l1 IH]; intros l2 H; [constructor|]. cbn [app] in H. inversion H as [|? ? Hn Hd]; subst.
+  constructor; [intro K; apply Hn; apply in_or_app; left; exact K|apply (IH l2 Hd)].
+Qed.
+Lemma NoDup_flat_filter {A B} (f : A -> list B) (g : A -> bool) : forall l, NoDup (flat_map f l) -> NoDup (flat_map f (filter g l)).
+Proof.
+  induction l as [|x l IH]; intro H; [constructor|]. cbn [flat_map] in H. cbn [filter].
+  pose proof (NoDup_app_r' _ _ H) as H2. destruct (g x); [|apply IH; exact H2]. cbn [flat_map].
+  apply NoDup_app_intro; [apply (NoDup_app_l' _ _ H)|apply IH; exact H2|].
+  intros b Hb K. apply (NoDup_app_disj _ _ b H Hb). apply in_flat_map in K as [y [K1 K2]]. apply filter_In in K1 as [K1 _].
+  apply in_flat_map. exists y. split; assumption.
+Qed.
+Lemma flat_member_unique {A B} (f : A -> list B) : forall l x y b, NoDup (flat_map f l) -> In x l -> In y l -> In b (f x) -> In b (f y) -> x = y.
+Proof.
+  induction l as [|z l IH]; intros x y b H Hx Hy Hbx Hby; [contradiction|]. cbn [flat_map] in H.
+  assert (Hz : forall u, In u l -> In b (f u) -> In b (f z) -> False).
+  { intros u Hu K1 K2. apply (NoDup_app_disj _ _ b H K2). apply in_flat_map. exists u. split; assumption. }
+  destruct Hx as [<-|Hx]; destruct Hy as [<-|Hy]; [reflexivity|exfalso; apply (Hz y Hy Hby Hbx)|exfalso; apply (Hz x Hx Hbx Hby)|].
+  apply (IH x y b (NoDup_app_r' _ _ H) Hx Hy Hbx Hby).
+Qed.
+
+Section Disjoint.
+  Variable st : fstyle.
+  Variable T X : N -> Prop.       (* the number of a top-level object / of a cross-reference stream *)
+  Notation comp := (compressed_nums st).
+  Hypothesis Hcomp : NoDup comp.
+  Hypothesis HTX : forall n, T n -> X n -> False.
+  Hypothesis HTc : forall n, T n -> In n comp -> False.
+  Hypothesis HXc : forall n, X n -> In n comp -> False.
+
+  Lemma defs_nodup : forall parts,
+    NoDup (flat_map mp_nums parts) -> NoDup (flat_map g_xid parts) ->
+    (forall p n, In p parts -> In n (mp_nums p) -> T n) -> (forall p n, In p parts -> In n (g_xid p) -> X n) ->
+    NoDup (flat_map (defs st) parts).
+  Proof.
+    induction parts as [|p rest IH]; intros Hn Hx HT HX; [constructor|]. cbn [flat_map] in *.
+    assert (Hmc : forall q n, In n (flat_map os_members (g_conts st q)) -> In n comp) by (intros q n; apply conts_members).
+    apply NoDup_app_intro.
+    - unfold defs. apply NoDup_app_intro; [apply (NoDup_app_l' _ _ Hn)| |].
+      + apply NoDup_app_intro; [apply (NoDup_app_l' _ _ Hx)|apply NoDup_flat_filter; exact Hcomp|].
+        intros n K1 K2. apply (HXc n (HX p n (or_introl eq_refl) K1) (Hmc p n K2)).
+      + intros n K1 K2. pose proof (HT p n (or_introl eq_refl) K1) as Kt. apply in_app_or in K2 as [K2|K2].
+        * apply (HTX n Kt (HX p n (or_introl eq_refl) K2)).
+        * apply (HTc n Kt (Hmc p n K2)).
+    - apply IH; [apply (NoDup_app_r' _ _ Hn)|apply (NoDup_app_r' _ _ Hx)|intros q n Hq; apply HT; right; exact Hq|intros q n Hq; apply HX; right; exact Hq].
+    - intros n K1 K2. apply in_flat_map in K2 as [q [Hq K2]]. unfold defs in K1, K2.
+      apply in_app_or in K1 as [K1|K1]; [|apply in_app_or in K1 as [K1|K1]]; (apply in_app_or in K2 as [K2|K2]; [|apply in_app_or in K2 as [K2|K2]]).
+      + apply (NoDup_app_disj _ _ n Hn K1). apply in_flat_map. exists q. split; assumption.
+      + apply (HTX n (HT p n (or_introl eq_refl) K1) (HX q n (or_intror Hq) K2)).
+      + apply (HTc n (HT p n (or_introl eq_refl) K1) (Hmc q n K2)).
+      + apply (HTX n (HT q n (or_intror Hq) K2) (HX p n (or_introl eq_refl) K1)).
+      + apply (NoDup_app_disj _ _ n Hx K1). apply in_flat_map. exists q. split; assumption.
+      + apply (HXc n (HX p n (or_introl eq_refl) K1) (Hmc q n K2)).
+      + apply (HTc n (HT q n (or_intror Hq) K2) (Hmc p n K1)).
+      + apply (HXc n (HX q n (or_intror Hq) K2) (Hmc p n K1)).
+      + apply in_flat_map in K1 as [s [S1 S2]]. apply in_flat_map in K2 as [s' [S3 S4]].
+        unfold g_conts, part_containers in S1, S3. apply filter_In in S1 as [S1 S1m]. apply filter_In in S3 as [S3 S3m].
+        assert (Es : s = s') by (apply (flat_member_unique os_members (s_ostms st) s s' n Hcomp S1 S3 S2 S4)). subst s'.
+        apply mem_N_In' in S1m. apply mem_N_In' in S3m.
+        apply (NoDup_app_disj _ _ (os_id s) Hn S1m). apply in_flat_map. exists q. split; assumption.
+  Qed.
+End Disjoint.
+
+Theorem multi_defs_nodup st parts a file :
+  ref_write_multi st parts a = Some file ->
+  (forall p n, In p parts -> In n (mp_nums p) -> In n (map (fun t : top => fst (fst (fst t))) (multi_tops st a))) ->
+  NoDup (flat_map (defs st) parts).
+Proof.
+  intros H Hdom. unfold ref_write_multi in H.
+  destruct (contains (bs "%PDF-") (s_junk st) || contains [x0d] (a_version a) || contains [x0a] (a_version a)); [discriminate H|].
+  match type of H with (if ?c then _ else _) = _ => destruct c eqn:C2 end; [discriminate H|].
+  apply negb_false_iff in C2. apply andb_true_iff in C2 as [C2 _]. apply andb_true_iff in C2 as [C2a C2b].
+  apply nodup_N_spec in C2a. apply nodup_N_spec in C2b.
+  unfold multi_tops in Hdom. destruct (containers (a_objs a) (s_ostms st)) as [conts|] eqn:Ec; [|discriminate H].
+  fold (rw_tops st a conts) in H.
+  match type of H with (if ?c then _ else _) = _ => destruct c eqn:C3 end; [discriminate H|].
+  apply negb_false_iff in C3. apply andb_true_iff in C3 as [C3a _]. apply nodup_N_spec in C3a.
+  set (nums := map (fun io : oid * obj => fst (fst io)) (a_objs a)) in *. set (cids := map os_id (s_ostms st)) in *.
+  assert (Hmem : forall m, In m (compressed_nums st) -> In m nums).
+  { intros m K. unfold compressed_nums in K. apply in_flat_map in K as [s [K1 K2]]. apply (containers_members _ _ _ Ec s m K1 K2). }
+  pose proof (NoDup_app_r' _ _ C2a) as Hcx.
+  apply (defs_nodup st (fun n => (In n nums /\ ~ In n (compressed_nums st)) \/ In n cids) (fun n => In n (part_xids parts)) C2b).
+  - intros n [[K1 _]|K1] K2.
+    + apply (NoDup_app_disj _ _ n C2a K1). apply in_or_app. right. exact K2.
+    + apply (NoDup_app_disj _ _ n Hcx K1 K2).
+  - intros n [[_ K1]|K1] K2; [exact (K1 K2)|]. apply (NoDup_app_disj _ _ n C2a (Hmem n K2)). apply in_or_app. left. exact K1.
+  - intros n K1 K2. apply (NoDup_app_disj _ _ n C2a (Hmem n K2)). apply in_or_app. right. exact K1.
+  - exact C3a.
+  - exact (NoDup_app_r' _ _ Hcx).
+  - intros p n Hp Hn. pose proof (Hdom p n Hp Hn) as K. apply in_map_iff in K as [t [K1 K2]]. unfold rw_tops in K2. apply in_app_or in K2 as [K2|K2].
+    + left. apply in_map_iff in K2 as [io [E1 E2]]. apply filter_In in E2 as [E2 E3]. subst t. cbn [fst] in K1. subst n. split.
+      * unfold nums. apply in_map_iff. exists io. split; [reflexivity|exact E2].
+      * intro K. apply mem_N_In' in K. rewrite K in E3. discriminate E3.
+    + right. unfold cids. rewrite <- (containers_nums _ _ _ Ec). apply in_map_iff. exists t. split; assumption.
+  - intros p n Hp Hn. unfold part_xids. apply in_flat_map. exists p. split; assumption.
+Qed.
+
+(* the position at which the k-th part starts (with the rest of the writer's state there) *)
+Fixpoint state_at (st : fstyle) (a : adoc) (tops : list top) (parts : list mpart) (pos : N) (prev : option N)
+         (known : list (N * sentry)) (maxnum : N) (k : nat) : N * option N * list (N * sentry) * N :=
+  match k, parts with
+  | S k', p :: rest =>
+    state_at st a tops rest (pos + N.of_nat (length (g_text st a tops p (g_last rest) pos prev known maxnum)))
+             (Some (g_xpos st a tops p pos)) (g_known st a tops p pos known maxnum) (g_size st a tops p maxnum - 1) k'
+  | _, _ => (pos, prev, known, maxnum)
+  end.
+Definition pos_at st a tops parts pos prev known maxnum k : N := fst (fst (fst (state_at st a tops parts pos prev known maxnum k))).
+
+(* with disjoint [defs]: EVERY number a part defines ends with the entry that part wrote at the place where the part stands *)
+Theorem known_current_at st a tops : forall pre parts pos prev known maxnum r p post n,
+  write_parts st a tops parts pos prev known maxnum = Some r -> NoDup (flat_map (defs st) parts) ->
+  parts = pre ++ p :: post -> In n (defs st p) ->
+  g_here st a tops p (pos_at st a tops parts pos prev known maxnum (length pre)) n = true ->
+  lookup_entry (final_known st a tops parts pos prev known maxnum) n =
+  Some (g_ehere st a tops p (pos_at st a tops parts pos prev known maxnum (length pre)) n).
+Proof.
+  induction pre as [|p0 pre IH]; intros parts pos prev known maxnum r p post n Hw Hnd -> Hn Hh.
+  - cbn [app length] in *. unfold pos_at in *. cbn [state_at fst] in *.
+    apply (known_keeps_current st a tops p post pos prev known maxnum r n Hw Hh). cbn [flat_map] in Hnd.
+    intro K. apply (NoDup_app_disj _ _ n Hnd Hn K).
+  - cbn [app length] in *. destruct (write_parts_tail st a tops p0 (pre ++ p :: post) pos prev known maxnum r Hw) as [_ [r' Hw']].
+    cbn [flat_map] in Hnd. unfold pos_at in *. cbn [state_at] in *. cbn [final_known].
+    apply (IH _ _ _ _ _ r' p post n Hw' (NoDup_app_r' _ _ Hnd) eq_refl Hn Hh).
+Qed.
+
+(* ---------- ref_write_multi: the run of write_parts it contains ---------- *)
+Lemma multi_write_parts st parts a file :
+  ref_write_multi st parts a = Some file ->
+  exists r, write_parts st a (multi_tops st a) parts (N.of_nat (length (header st (a_version a)))) None [] 0 = Some r /\
+            file = s_junk st ++ header st (a_version a) ++ r.
+Proof.
+  intro H. unfold ref_write_multi in H.
+  destruct (contains (bs "%PDF-") (s_junk st) || contains [x0d] (a_version a) || contains [x0a] (a_version a)); [discriminate H|].
+  match type of H with (if ?c then _ else _) = _ => destruct c end; [discriminate H|].
+  unfold multi_tops. destruct (containers (a_objs a) (s_ostms st)) as [conts|]; [|discriminate H].
+  fold (rw_tops st a conts) in H.
+  match type of H with (if ?c then _ else _) = _ => destruct c end; [discriminate H|].
+  destruct (write_parts st a (rw_tops st a conts) parts (N.of_nat (length (header st (a_version a)))) None [] 0) as [r|]; [|discriminate H].
+  exists r. split; [reflexivity|]. destruct parts; [discriminate H|]. inversion H. reflexivity.
+Qed.
+
+(* THE MERGED TABLE OF THE WRITER, for ref_write_multi: every number a part defines -- a top-level object, its cross-reference stream,
+   a member of one of its object streams -- ends with the entry that part wrote (offset inside the part resp. container and index),
+   whatever earlier parts listed under that number (superseded definitions) and whatever later parts list again *)
+Theorem multi_known_current st parts a file pre p post n :
+  ref_write_multi st parts a = Some file ->
+  (forall q m, In q parts -> In m (mp_nums q) -> In m (map (fun t : top => fst (fst (fst t))) (multi_tops st a))) ->
+  parts = pre ++ p :: post -> In n (defs st p) ->
+  g_here st a (multi_tops st a) p (pos_at st a (multi_tops st a) parts (N.of_nat (length (header st (a_version a)))) None [] 0 (length pre)) n = true ->
+  lookup_entry (final_known st a (multi_tops st a) parts (N.of_nat (length (header st (a_version a)))) None [] 0) n =
+  Some (g_ehere st a (multi_tops st a) p (pos_at st a (multi_tops st a) parts (N.of_nat (length (header st (a_version a)))) None [] 0 (length pre)) n).
+Proof.
+  intros H Hdom Ep Hn Hh. destruct (multi_write_parts st parts a file H) as [r [Hw _]].
+  apply (known_current_at st a (multi_tops st a) pre parts _ _ _ _ r p post n Hw (multi_defs_nodup st parts a file H Hdom) Ep Hn Hh).
+Qed.
